@@ -844,25 +844,30 @@ func (m *Memberlist) rawSendMsgPacket(a Address, node *Node, msg []byte) error {
 		}
 	}
 
-	// Try to look up the destination node. Note this will only work if the
-	// bare ip address is used as the node name, which is not guaranteed.
-	if node == nil {
+	// Determine the highest protocol version the destination understands.
+	// If we were not given the node, try to look it up. Note this will only
+	// work if the bare ip address is used as the node name, which is not
+	// guaranteed. The record is shared with the protocol handlers, so it is
+	// only read while holding the lock.
+	var peerPMax uint8
+	if node != nil {
+		peerPMax = node.PMax
+	} else {
 		toAddr, _, err := net.SplitHostPort(a.Addr)
 		if err != nil {
 			m.logger.Printf("[ERR] memberlist: Failed to parse address %q: %v", a.Addr, err)
 			return err
 		}
 		m.nodeLock.RLock()
-		nodeState, ok := m.nodeMap[toAddr]
-		if ok {
-			node = &nodeState.Node
+		if nodeState, ok := m.nodeMap[toAddr]; ok {
+			peerPMax = nodeState.PMax
 		}
 		m.nodeLock.RUnlock()
 	}
 
 	// Add a CRC to the end of the payload if the recipient understands
 	// ProtocolVersion >= 5
-	if node != nil && node.PMax >= 5 {
+	if peerPMax >= 5 {
 		crc := crc32.ChecksumIEEE(msg)
 		header := make([]byte, 5, 5+len(msg))
 		header[0] = byte(hasCrcMsg)
